@@ -30,6 +30,8 @@ func implLine(line string, o *oracleSink) string {
 	return "bad-op"
 }
 
+var hangSeen bool
+
 var extraOps = map[string]func([]string, *oracleSink) string{}
 
 func main() {
@@ -57,7 +59,16 @@ func main() {
 			line, err := in.ReadString('\n')
 			if len(line) > 0 {
 				o := &oracleSink{}
-				res := implLine(strings.TrimRight(line, "\n"), o)
+				var res string
+				if hangSeen {
+					// a call never returned: its goroutines are still around, later results would be unreliable
+					res = "skipped ; after-hang ; notes"
+				} else {
+					res = implLine(strings.TrimRight(line, "\n"), o)
+					if strings.Contains(res, "HANG") {
+						hangSeen = true
+					}
+				}
 				fmt.Fprintln(out, res)
 				if oreq != nil {
 					for i := range o.req {
